@@ -2,6 +2,7 @@ import GrolProofs.EvalOps
 import GrolProofs.Props.C15chunks
 import GrolProofs.EnvConst
 import GrolProofs.EvalFrame
+import GrolProofs.MemoMono
 /-!
 # C01 — the syntax-directed reference rules of the language, as theorems about the model
 
@@ -1068,5 +1069,161 @@ theorem C01.eval_unwrap (f : Nat) (node : Node) (st : St) (r : Obj) (h : ¬ st.d
 
 example : outcome (evalStatements 4 [.ret (.int 1), .ident "nosuch"] .null) {} = .ok (.ret (.int 1) "RETURN") := rfl
 example : outcome (eval 5 (.stmts [.ret (.int 1), .ident "nosuch"])) {} = .ok (.int 1) := rfl
+
+/-- a function literal evaluates to a closure over the CURRENT environment; no state change but the step -/
+theorem C01.evalI_lambda (f : Nat) (params : List String) (variadic lambda : Bool) (key : String) (body : Node) :
+    evalI (f + 1) (.fn none params variadic lambda key body) = C15.enter (do
+      let e ← curEnv
+      pure (.func { name := none, params := params, variadic := variadic, lambda := lambda || true,
+                    key := key, body := body, env := e })) := by
+  evalI_step
+
+/-- a call node: the function expression (through `Eval`), then the arguments left to right, then the
+application; an error value in function position is the result and no argument is evaluated -/
+theorem C01.evalI_call (f : Nat) (fnode : Node) (args : List Node) :
+    evalI (f + 1) (.call fnode args) = C15.enter (do
+      let fv ← eval f fnode
+      if fv.isError then pure fv
+      else match ← evalExpressions f args [] with
+        | .error e => pure e
+        | .ok argv =>
+          match fv with
+          | .ext name => applyExtension f name argv
+          | _ => applyFunction f fv argv) := by
+  evalI_step
+
+/-- arguments are evaluated left to right, each in the state its predecessor left; the first error value stops -/
+theorem C01.evalExpressions_cons (f : Nat) (e : Node) (rest : List Node) (acc : List Obj) :
+    evalExpressions (f + 1) (e :: rest) acc = (do
+      let v ← evalI f e
+      if v.isError then pure (.error v) else evalExpressions f rest (v :: acc))
+    ∧ evalExpressions (f + 1) [] acc = pure (.ok acc.reverse) := by
+  constructor <;> rw [evalExpressions]
+
+theorem C01.run_writeOut (b : Grol.Wire.Bytes) (s : St) :
+    ∃ s', run (writeOut b) s = (.ok (), s') ∧ s'.cfg = s.cfg ∧ s'.frames = s.frames := by
+  unfold writeOut
+  rw [run_modify]
+  refine ⟨_, rfl, ?_, ?_⟩ <;> (split <;> rfl)
+
+theorem C01.run_cacheGet_off (key : String) (args : List Obj) (s : St) (h : s.cfg.cacheOn = false) :
+    run (cacheGet key args) s = (.ok none, s) := by
+  unfold cacheGet
+  simp only [run_bind, run_get, h]
+  rfl
+
+theorem C01.run_cacheSet_off (key : String) (args : List Obj) (res : Obj) (o : Grol.Wire.Bytes) (s : St)
+    (h : s.cfg.cacheOn = false) : run (cacheSet key args res o) s = (.ok (), s) := by
+  unfold cacheSet
+  simp only [run_bind, run_get, h]
+  rfl
+
+/-- the end of a call with the cache switched off: whatever the bookkeeping does (replaying the captured
+output into the caller's writer, propagating a miss to the caller's frame), the VALUE of the call is the value
+of the body -/
+theorem C01.finishCall_value (f : FuncVal) (args : List Obj) (curState before after : Nat) (cc : Bool)
+    (res : Obj) (output : Grol.Wire.Bytes) (s : St) (cfr : Frame)
+    (hoff : s.cfg.cacheOn = false) (hc : s.frames[curState]? = some cfr) :
+    outcome (finishCall f args curState before after cc res output) s = .ok res := by
+  rw [outcome_eq_run]
+  unfold finishCall
+  obtain ⟨s', hw, hcfg, hfrs⟩ := C01.run_writeOut output s
+  have hc' : s'.frames[curState]? = some cfr := by rw [hfrs]; exact hc
+  have hoff' : s'.cfg.cacheOn = false := by rw [hcfg]; exact hoff
+  have tail : ∀ s0 : St, s0.cfg.cacheOn = false → s0.frames[curState]? = some cfr →
+      (run (if (after != before) = true then do
+          triggerNoCache curState
+          pure res
+        else
+          if res.isError = true then pure res
+          else
+            if holdsFunc res = true then pure res
+            else do
+              cacheSet f.key args res output
+              pure res : M Obj) s0).1 = .ok res := by
+    intro s0 h0 h1
+    by_cases hab : (after != before) = true
+    · rw [if_pos hab, run_bind]
+      unfold triggerNoCache
+      simp only [run_modifyFrame, h1]
+      rfl
+    · rw [if_neg hab]
+      cases res.isError
+      · cases holdsFunc res
+        · simp only [Bool.false_eq_true, if_false, run_bind, C01.run_cacheSet_off _ _ _ _ s0 h0]
+          rfl
+        · rfl
+      · rfl
+  by_cases ho : output.isEmpty = true
+  · simp only [ho, Bool.not_true, Bool.false_eq_true, if_false]
+    exact tail s hoff hc
+  · have ho' : (!output.isEmpty) = true := by simpa using ho
+    rw [if_pos ho', run_bind, hw]
+    exact tail s' hoff' hc'
+
+theorem C01.run_curEnv (s : St) : run curEnv s = (.ok s.cur, s) := rfl
+
+theorem C01.getElem?_of_lt (fr : Array Frame) (i : Nat) (h : i < fr.size) : ∃ x, fr[i]? = some x := by
+  cases hx : fr[i]? with
+  | some x => exact ⟨x, rfl⟩
+  | none => rw [Array.getElem?_eq_none_iff] at hx; omega
+
+/-- FUNCTION APPLICATION, cache switched off (`cfg.cacheOn = false`): the value of applying a function value
+to argument values is the value of its BODY, evaluated (through `Eval`, which unwraps `return`) in the
+environment `extendFunctionEnv` built (new frame `nenv` with the parameters bound, parented to the closure's
+environment), with a fresh output buffer -/
+theorem C01.apply_is_body (fuel : Nat) (f : FuncVal) (args : List Obj) (st s1 : St) (cf : Frame) (nenv : Nat)
+    (res : Obj) (hoff : st.cfg.cacheOn = false) (hcf : st.frames[st.cur]? = some cf)
+    (hext : run (extendFunctionEnv f args) st = (.ok (.ok nenv), s1))
+    (hn : nenv < s1.frames.size) (hc : s1.cur < s1.frames.size)
+    (hbody : outcome (eval fuel f.body) { s1 with cur := nenv, outs := [] :: s1.outs } = .ok res) :
+    outcome (applyFunction (fuel + 1) (.func f) args) st = .ok res := by
+  have hget : ∀ skip : Bool, run (if skip then pure none else cacheGet f.key args) st = (.ok none, st) := by
+    intro skip; cases skip
+    · exact C01.run_cacheGet_off _ _ _ hoff
+    · rfl
+  have hb : run (eval fuel f.body) { s1 with cur := nenv, outs := [] :: s1.outs } =
+      (.ok res, stateAfter (eval fuel f.body) { s1 with cur := nenv, outs := [] :: s1.outs }) := Prod.ext hbody rfl
+  have hg := eval_grows fuel f.body { s1 with cur := nenv, outs := [] :: s1.outs }
+  have hk := eval_keeps fuel f.body { s1 with cur := nenv, outs := [] :: s1.outs }
+  have hk1 : s1.cfg = st.cfg := by
+    have := ((good_extendFunctionEnv (f := f) (a := args)).h st).1.cfg
+    rw [stateAfter_eq_run, hext] at this; exact this
+  generalize stateAfter (eval fuel f.body) { s1 with cur := nenv, outs := [] :: s1.outs } = s3 at hb hg hk
+  obtain ⟨fr, hfr⟩ := C01.getElem?_of_lt s3.frames nenv (Nat.lt_of_lt_of_le hn hg.size)
+  obtain ⟨cfr, hcfr⟩ := C01.getElem?_of_lt s3.frames s1.cur (Nat.lt_of_lt_of_le hc hg.size)
+  rw [outcome_eq_run, applyFunction]
+  simp only [run_bind, C01.run_curEnv, run_getFrame, hcf, hget, hext, run_modify, hb, hfr, run_get, run_set]
+  rw [← outcome_eq_run]
+  refine C01.finishCall_value f args s1.cur 0 _ _ res _ _ cfr ?_ hcfr
+  show s3.cfg.cacheOn = false
+  rw [hk.cfg]
+  show s1.cfg.cacheOn = false
+  rw [hk1]; exact hoff
+
+/-- … an error from binding the arguments (wrong number of arguments, …) is the value of the call: the body
+is not evaluated -/
+theorem C01.apply_bind_error (fuel : Nat) (f : FuncVal) (args : List Obj) (st s1 : St) (cf : Frame) (e : Obj)
+    (hoff : st.cfg.cacheOn = false) (hcf : st.frames[st.cur]? = some cf)
+    (hext : run (extendFunctionEnv f args) st = (.ok (.error e), s1)) :
+    outcome (applyFunction (fuel + 1) (.func f) args) st = .ok e
+    ∧ stateAfter (applyFunction (fuel + 1) (.func f) args) st = s1 := by
+  have hget : ∀ skip : Bool, run (if skip then pure none else cacheGet f.key args) st = (.ok none, st) := by
+    intro skip; cases skip
+    · exact C01.run_cacheGet_off _ _ _ hoff
+    · rfl
+  rw [outcome_eq_run, stateAfter_eq_run, applyFunction]
+  simp only [run_bind, C01.run_curEnv, run_getFrame, hcf, hget, hext, run_pure, and_self]
+
+/-- applying a value that is not a function is the error "not a function" -/
+theorem C01.apply_non_function (fuel : Nat) (v : Obj) (args : List Obj) (hv : ∀ f, v ≠ .func f) :
+    applyFunction (fuel + 1) v args = pure (err "not a function") := by
+  cases v <;> first | exact absurd rfl (hv _) | (rw [applyFunction]; exact hv)
+
+/-! non-vacuity: `func(a){return a+1}(41)` in a one-frame state with the cache switched off (kernel evaluation) -/
+example : (match outcome (eval 12 (.call (.fn none ["a"] false true "k" (.stmts [.ret (.inf "PLUS" (.ident "a") (.int 1))])) [.int 41]))
+    { cfg := { cacheOn := false }, frames := #[{}] } with
+    | .ok (.int v) => v == 42
+    | _ => false) = true := by decide +kernel
 
 end Grol.E
